@@ -121,6 +121,16 @@ C12(i) ==
                               /\ o.grid[c[1]][c[2]][3] = B2F(s.tail[c[1]][c[2]])>> }
    ELSE {})
   \cup
+  \* "normalised body order": on EVERY emitted observation (also the terminal one after an invalid move, where the new
+  \* head fell off the grid) plane 5 is the state's body_state divided by the largest body order present in it
+  (IF ~e.pl /\ ObsGridShape(o.grid) /\ GridShape(s.body_state) THEN
+     LET m == SeqMax([k \in 1..(NR * NC) |-> s.body_state[((k - 1) \div NC) + 1][((k - 1) % NC) + 1]]) IN
+     IF m >= 1
+     THEN { <<"C12.obs_field_grid.norm_body_state.normalised_by_largest_order",
+                \A c \in AllCells : Near(o.grid[c[1]][c[2]][5], s.body_state[c[1]][c[2]], m, 1)>> }
+     ELSE {}
+   ELSE {})
+  \cup
   (IF ~e.pl /\ ObsGridShape(o.grid) /\ InBounds(s)
       /\ (IsReset(i) \/ (PreOK(i) /\ Legal(Pre(i), e.a)))
    THEN { <<"C12.obs_field_grid.body", ObsBody(o.grid, s)>>,
